@@ -74,6 +74,17 @@ func main() {
 		data, _ := os.ReadFile(raceFile)
 		rep := string(data[lastSize:])
 		lastSize = st.Size()
+		if r.Abnormal != "" {
+			// the run ended without joining its tasks (step cap, stall, deadlock): the scheduler goroutine
+			// has no happens-before edge with them, so reports naming it are artefacts of the abandoned run
+			var keep []string
+			for _, one := range strings.Split(rep, "==================\n") {
+				if strings.Contains(one, "DATA RACE") && !strings.Contains(one, " by main goroutine") {
+					keep = append(keep, one)
+				}
+			}
+			rep = strings.Join(keep, "==================\n")
+		}
 		if !strings.Contains(rep, "DATA RACE") {
 			return false
 		}
